@@ -87,7 +87,7 @@ static size_t med_read(void *dst, uint32_t addr, size_t n) { return g_med->acces
 static size_t med_write(uint32_t addr, const void *src, size_t n) { return g_med->access(true, addr, nullptr, src, n); }
 
 struct Config {
-    size_t N = 8; uint32_t place = 0; int ck = 0; uint32_t init = 0; int64_t aux = -1;
+    size_t N = 8; uint32_t place = 0; int ck = 0; uint32_t init = 0; int64_t aux = -1; int dirt = 0; bool noplace = false;
     std::vector<int64_t> setup;   // configuration history before the effective calls: 1 sum16(crc), 2 sum32, 3 place(elsewhere), 4 buffer(other size), 5 place(final)
     size_t cks() const { return ck >= 2 ? 4 : 2; }
     void load(const Json &j) {
@@ -96,6 +96,7 @@ struct Config {
         // the region (checksum + data) has to fit below 2^32; a placement beyond that is moved down so that the region ends exactly at the top
         int64_t p = j.geti("place"); if (p < 0) p = 0; { int64_t maxp = 0x100000000ll - (int64_t)(N + cks()); if (p > maxp) p = maxp; } place = (uint32_t)p;
         init = ck == 0 ? 0 : (uint32_t)j.geti("init");
+        dirt = (int)(j.geti("dirt") & 0xff); noplace = j.geti("noplace") != 0;
         aux = j.geti("aux", -1); if (aux > (int64_t)N + 8) aux = (int64_t)N + 8;
         setup.clear(); const Json &sj = j.get("setup");
         for (size_t i = 0; i < sj.size() && i < 8; ++i) { int64_t st = sj.ati(i); if (ck == 0 && (st == 1 || st == 2)) continue; /* the default trivial sum cannot be re-selected */ setup.push_back(st); }
@@ -110,6 +111,7 @@ struct Store {
     std::unique_ptr<GuardedBlock> aux;
     std::unique_ptr<GuardedBlock> aux_old;
     void make(const Config &cf) {
+        memset(&ps, cf.dirt, sizeof ps);   // persistent_init() is given an object with arbitrary content (an automatic variable, say)
         persistent_init(&ps, cf.N, med_read, med_write);
         // ck == 0: the library's default trivial 16-bit sum (initial value 0) set up by persistent_init
         // an arbitrary configuration history first (users re-configure instances): only the last call of each kind counts
@@ -126,6 +128,9 @@ struct Store {
         }
         // the effective configuration; the order of place and checksum selection varies with the history
         bool place_first = cf.setup.empty() || (cf.setup[0] & 1);
+        // an instance that lives at address 0 need not be placed at all: persistent_init() put it there
+        const bool never_placed = cf.noplace && cf.place == 0; if (never_placed) { placed_last = true; for (int64_t st : cf.setup) if (st == 3 || st == 5) placed_last = false; }
+        if (never_placed && placed_last) COUNT("probe.instance_never_placed");
         if (place_first && !placed_last) persistent_place(&ps, cf.place);
         if (cf.ck == 1) persistent_sum16(&ps, cb_crc16, (uint16_t)cf.init);
         else if (cf.ck >= 2) persistent_sum32(&ps, cf.ck == 3 ? cb_sum32_upper : (cf.ck == 4 ? cb_sum32_lower : cb_sum32), cf.init);
@@ -158,7 +163,7 @@ struct PsHarness : Harness {
     std::vector<std::string> props() const override { return {"C10", "C11"}; }
     std::string level(const std::string &p) const override { return p == "C11" ? "fault_enumeration" : "exploration"; }
     std::vector<std::string> probes(const std::string &p) const override {
-        if (p == "C10") return {"aux_size_0", "aux_size_1", "aux_size_N_minus_1", "aux_size_N", "aux_size_N_plus_1", "partial_store_ends_at_last_octet", "overflow_pair_refused", "reconfigured_checksum_width", "placed_before_checksum_selection", "operation_failed_then_session_continued", "image_of_64k_octets_or_more", "second_instance_worked_during_a_medium_call"};
+        if (p == "C10") return {"aux_size_0", "aux_size_1", "aux_size_N_minus_1", "aux_size_N", "aux_size_N_plus_1", "partial_store_ends_at_last_octet", "overflow_pair_refused", "reconfigured_checksum_width", "placed_before_checksum_selection", "operation_failed_then_session_continued", "image_of_64k_octets_or_more", "second_instance_worked_during_a_medium_call", "instance_never_placed"};
         return {"crash_between_data_and_checksum_write", "tear_inside_checksum", "short_read_in_last_call", "validated_new_image_after_cut", "validated_old_image_after_cut"};
     }
     uint64_t runs(const std::string &p, const Tier &t) const override {
@@ -203,6 +208,7 @@ struct PsHarness : Harness {
         c["size"] = (long long)N;
         c["place"] = (long long)(r.chance(1, 2) ? 0 : (r.chance(1, 4) ? (r.chance(1, 3) ? 0xffffffffll : 0xffff0000ll - r.range(0, 3) * 4096) : r.range(1, 5000)));
         c["ck"] = (long long)(r.chance(1, 5) ? 3 + r.below(2) : r.below(3));
+        { static const int DIRT[] = {0, 0xff, 0xa5, 0x01, 0x80}; c["dirt"] = DIRT[r.below(5)]; } if (r.chance(1, 3)) c["noplace"] = 1;
         c["init"] = (long long)(r.chance(1, 2) ? 0 : (r.chance(1, 2) ? 0xffff : r.range(0, 0xffffffffll)));
         int64_t aux;
         switch (r.below(8)) { case 0: aux = -1; break; case 1: aux = 0; break; case 2: aux = 1; break; case 3: aux = N - 1; break; case 4: aux = N; break; case 5: aux = N + 1; break; default: aux = r.range(0, N + 1); }
